@@ -1,4 +1,6 @@
 import Rare.Proofs.C12Parse
+import Rare.Proofs.C12Grammar
+import Rare.Proofs.C12Scan
 import Rare.Gen.C12
 /-!
 Property C12 – dissect matching equals its specification; ignore-case only adds matches.
@@ -188,6 +190,72 @@ theorem gen_pool_sizing (d : Dissect) :
   refine ⟨by simp [Dissect.createInstance, Pool.new, Gen.C12.poolSize], fun g => rfl, ?_, by decide⟩
   intro g; simp only [Gen.C12.getSize, Gen.C12.poolSize]; omega
 
+/-! ### Pattern compilation against the grammar of dissect patterns (`Spec/C12Grammar.lean`)
+
+    pattern ::= literal ( "%{" key "}" literal )*      literal: no "%{" inside      key: no "}" inside
+
+delimiters between adjacent tokens non-empty, names of capturing tokens pairwise different. -/
+
+/-- **`CompileEx` succeeds iff the text is a pattern of the grammar** – for every byte string and
+either mode.  `PatternText s` = there is a derivation `p` (`p.Grammar`: leading literal and every
+delimiter free of `%{`, keys free of `}`, a non-empty delimiter between adjacent tokens, captured names
+pairwise different) whose text `p.render` is `s`.  In particular a `%` that is not followed by `{` is
+an ordinary literal byte wherever it stands (the repaired F17 behaviour), and a `%{` without a later
+`}` is not derivable. -/
+theorem compile_iff_pattern_grammar (s : Bytes) (ic : Bool) :
+    (∃ d, compileEx s ic = .ok d) ↔ PatternText s :=
+  compileEx_ok_iff_grammar s ic
+
+/-- …and the compiled structure of a derivation: one token per grammar token with its name (without
+the `?` flag), its delimiter EXACTLY as written (lowered when ignore-case) and its skip flag; the
+(lowered) leading literal; the name table numbering the capturing tokens 1, 2, …; their count. -/
+theorem compile_of_derivation (p : Pat) (g : p.Grammar) (ic : Bool) :
+    compileEx p.render ic =
+      .ok { tokens := p.toks.map (tokOf ic), pre := if ic then lower p.pre else p.pre, ic := ic,
+            groupNames := nameTable p.toks, groupCount := capCount p.toks } :=
+  compileEx_of_grammar p g ic
+
+/-- Everything outside the grammar is rejected with one of the three Go errors (the model's `fuel`
+error – "the loop did not terminate" – never occurs): "rejected" and "not a pattern" coincide.
+Which of the three errors is reported is `compile_errors` (+ `every_text_is_pattern`). -/
+theorem compile_rejects_iff_not_grammar (s : Bytes) (ic : Bool) :
+    (∃ e, compileEx s ic = .error e ∧ e ≠ .fuel) ↔ ¬ PatternText s := by
+  rw [← compile_iff_pattern_grammar s ic]
+  constructor
+  · rintro ⟨e, he, _⟩ ⟨d, hd⟩
+    rw [hd] at he; cases he
+  · intro hno
+    cases hc : compileEx s ic with
+    | ok d => exact absurd ⟨d, hc⟩ hno
+    | error e => exact ⟨e, rfl, fun hf => compileEx_no_fuel s ic (hf ▸ hc)⟩
+
+/-- The grammar is decidable by ONE left-to-right pass with two states (`scanPattern`: inside a
+literal / inside a key; it never looks at `CompileEx`'s `strings.Index` searches).  The correspondence
+runs this recogniser against the real `CompileEx` (op `grammar`). -/
+theorem accepts_iff_grammar (s : Bytes) : acceptsPattern s = true ↔ PatternText s := by
+  rw [← compile_iff_pattern_grammar s false]
+  exact accepts_iff_compiles s false
+
+/-- A `%` not followed by `{`, a lone `{` and a `}` are literal bytes: a text without the two-byte
+sequence `%{` is a pattern (with no token), compiles, and its whole text is the leading literal. -/
+theorem bare_percent_is_literal (s : Bytes) (h : ¬ tokOpen <:+: s) (ic : Bool) :
+    PatternText s ∧ compileEx s ic = .ok (compiled ic ⟨s, []⟩) := by
+  have g : (⟨s, []⟩ : Pat).Grammar := ⟨h, by simp, by simp, trivial, by simp [capturedNames]⟩
+  have hr : (⟨s, []⟩ : Pat).render = s := by simp [Pat.render]
+  exact ⟨⟨⟨s, []⟩, g, hr.symm⟩, by simpa [hr] using compileEx_of_grammar ⟨s, []⟩ g ic⟩
+
+/-- **Tie to the source (regenerated on every run)**: the searches, the slice expressions and the
+branch conditions of `CompileEx` printed from the Go AST are the ones `compileStep` mirrors:
+`start := Index(expr, "%{")`, `expr[start+2:]`, `stop := Index(expr, "}")`, `expr[:stop]`,
+`expr[stop+1:]`, `end := Index(expr, "%{")` (NOT a search for a bare `%`), `end == 0` = sequential,
+`keyName[0] == '?'` = named skip, the duplicate test on `groupNames`. -/
+theorem compile_code_matches_source :
+    Gen.C12.compileSearches = [("strings.Index", [37, 123]), ("strings.Index", [125]), ("strings.Index", [37, 123])] ∧
+    Gen.C12.compileSlices = ["expr[:start]", "expr[start+2:]", "expr[:stop]", "expr[stop+1:]", "expr[:end]", "expr[end:]", "keyName[1:]"] ∧
+    Gen.C12.compileConds = ["start < 0", "len(parts) == 0", "len(parts) == 0", "stop < 0", "end < 0", "end == 0",
+      "ignoreCase", "len(keyName) == 0", "keyName[0] == '?'", "!skipped", "_, ok := groupNames[keyName]; ok", "ignoreCase"] := by
+  decide
+
 /-! ### Non-vacuity: the hypotheses above are satisfiable on concrete, non-trivial values -/
 
 /-- `k=%{x} %{?s};%{y}` -/
@@ -221,5 +289,19 @@ example : compileEx [37, 123, 97, 125, 32, 37, 123, 98] false = .error .unclosed
 example : compileEx [37, 123, 97, 125, 32, 37, 123, 97, 125] false = .error .conflict := by rfl
 -- the pool: the third request does not fit and is served from a fresh array
 example : (getMany (Pool.new 5) [2, 2, 2]).toOption.map (·.1) = some [⟨0, 0, 2⟩, ⟨0, 2, 2⟩, ⟨1, 0, 2⟩] := by decide
+
+-- the grammar: `k=%{x} %{?s};%{y}` is derivable; so is the F17 text `%{a} 100% done %{b}` with the
+-- delimiter ` 100% done `; `%{a}%{b}`, `%{a} %{a}`, `%{a} %{b` are not
+example : exPat.Grammar := (grammar_iff exPat).mpr ⟨by decide, by decide⟩
+example : PatternText exPat.render := ⟨exPat, (grammar_iff exPat).mpr ⟨by decide, by decide⟩, rfl⟩
+example : (⟨[], [⟨[97], [32, 49, 48, 48, 37, 32, 100, 111, 110, 101, 32]⟩, ⟨[98], []⟩]⟩ : Pat).Grammar :=
+  (grammar_iff _).mpr ⟨by decide, by decide⟩
+example : acceptsPattern [37, 123, 97, 125, 32, 49, 48, 48, 37, 32, 100, 111, 110, 101, 32, 37, 123, 98, 125] = true ∧
+    acceptsPattern [37, 123, 97, 125, 37, 123, 98, 125] = false ∧
+    acceptsPattern [37, 123, 97, 125, 32, 37, 123, 97, 125] = false ∧
+    acceptsPattern [37, 123, 97, 125, 32, 37, 123, 98] = false ∧
+    acceptsPattern [37, 37, 123, 97, 125, 37] = true := by decide
+example : ¬ PatternText [37, 123, 97, 125, 37, 123, 98, 125] := by
+  rw [← accepts_iff_grammar]; decide
 
 end Rare.C12
